@@ -45,7 +45,7 @@ Run(S, ev, k) ==
     IF e.exc # "" THEN "operation_exception_" \o e.o.op
     ELSE IF ~OpEnabled(S, e.o) THEN "harness_op_not_enabled"
     ELSE LET T == Apply(S, e.o)
-             pv == ProjVerdict(T, e.proj)
+             pv == IF e.skip THEN "ok" ELSE ProjVerdict(T, e.proj)     \* skip: graph read from a file, only its final state is observable
          IN IF pv # "ok" THEN pv
             ELSE LET qv == IF e.hasq THEN QueryVerdict(T, e.q) ELSE "ok"
                  IN IF qv # "ok" THEN qv ELSE Run(T, ev, k + 1)
